@@ -14,7 +14,7 @@ CHECKS = {
         note='Trusted: Coq kernel (no axioms); extraction; the Doc dump through format_source_inspect (public pretty::Doc enum); that the converter is parametric in the unit is CHECKED per case, not proved over the converter model.',
         design='§4 C12'),
     'C13': dict(technique='Coq proofs (list/byte-offset arithmetic, structural induction on the tree) over a Gallina model of partial.rs and the utils.rs helpers, reusing the converter model + differential correspondence K6 (class, returned range, bytes) + splice oracle',
-        text='Partial proof. Proved for every tree/text: for any request a <= b whose ends are on char boundaries or past the end, clamping and trimming never fail and yield a sub-range on char boundaries holding exactly the trimmed text (C13_range_arithmetic_total); the node found covers the range, is a Markup/Expr/Pattern node of the tree on node boundaries (C13_cover_sound); the indentation lookup at a node start never fails (C13_indent_lookup_total); a successful call returns the byte range of a non-erroneous covering node containing the trimmed request (C13_result_is_covering_node); no/erroneous covering node is refused (C13_refuses_erroneous). NOT proved: the spliced text re-parses to an equivalent tree (parser; oracle on every case) and converter Panic sites (C05). Tie K6: format_source_range == Partial.format_range on thousands of (source, range) pairs incl. ranges past the end and erroneous sources. Repairs needed for the property to hold: 246cff8 (clamp before trim), b96d67a (indent at node start), f233c9f (first-line indentation), b3412af (item body nesting).',
+        text='Partial proof. Proved for every tree/text: for any request a <= b whose ends are on char boundaries or past the end, clamping and trimming never fail and yield a sub-range on char boundaries holding exactly the trimmed text (C13_range_arithmetic_total); the node found covers the range, is a Markup/Expr/Pattern node of the tree on node boundaries (C13_cover_sound); the indentation lookup at a node start never fails (C13_indent_lookup_total); a successful call returns the byte range of a non-erroneous covering node containing the trimmed request (C13_result_is_covering_node); no/erroneous covering node is refused (C13_refuses_erroneous); for a schema-conforming tree (swfc, evaluated on every parsed tree) every such request is answered with text or the refusal: no Panic site of the arithmetic, the lookup or the converters is reachable and the renderer's fuel suffices (C13_range_total). NOT proved: the spliced text re-parses to an equivalent tree (parser; oracle on every case). Tie K6: format_source_range == Partial.format_range on thousands of (source, range) pairs incl. ranges past the end and erroneous sources. Repairs needed for the property to hold: 246cff8 (clamp before trim), b96d67a (indent at node start), f233c9f (first-line indentation), b3412af (item body nesting).',
         note='Trusted: Coq kernel (no axioms); Rust str slicing semantics restated as split_at_byte/slice; LinkedNode offsets restated as prefix sums (A3, checked by K6).',
         design='§4 C13'),
     'C17': dict(technique="Coq proof of audit obligations over gen/StateAudit.v, REGENERATED from typstyle-core's sources on every run (translator), and of history/order independence of the library state machine over the audited state + K9 schedule testing (16 threads, shuffled orders, separate processes)",
@@ -38,7 +38,7 @@ CHECKS = {
         note="Trusted: Coq kernel (closed under the global context, no axioms); extraction (ExtrOcamlBasic only) and the OCaml driver; translators gen_kind/gen_tables/gen_cli; the Rust harness with its oracles. Modelled, not verified: typst-syntax (parser: its trees are the model's input), the `pretty` renderer and unicode-width (restated / harvested, compared on every case). K5 and the oracles are sampled (differential testing).",
         design='§4 C04'),
     'C05': dict(technique="Coq proofs (structural induction over documents / child lists; renderer refinement for every width) over a hand-written Gallina model of the whole converter pipeline (attr passes, ~60 converters, four stylists, pretty's renderer, post-processing) + generated tables (gen/Tables.v, gen/Kind.v) + differential correspondence of the extracted model with the implementation (document, bytes, counter) on every case + property oracle search",
-        text="Partial proof. Proved for all trees/configs: the library refuses iff the tree is erroneous (C05_refuses_iff_erroneous) and format_with_width then returns the input (C05_convenience_returns_input); the converter model is a total structural recursion (no fuel) and the renderer's fuel is sufficient for every document and width (C05_renderer_terminates, C05_never_out_of_fuel), so a well-formed tree yields text or a Panic at a named site and nothing else (C05_wellformed_total_partial); the comment.rs unwrap/unreachable sites are unreachable (C05_comment_sites_unreachable). NOT proved: unreachability of the remaining Panic sites under the CST schema; native stack depth and allocation are runtime. Tie: accepted/refused/panicked class equality between model and implementation on every case incl. damaged sources and nested families; oracle: catch_unwind + refusal iff erroneous + format_with_width identity.",
+        text="Proof over the model, under a schema clause checked on every parsed tree. C05_total: for every width oracle, configuration and tree, an erroneous tree is refused, and a well-formed Markup tree satisfying swfc yields text — no Panic site of the converter (math slicing, chain printer, casts, missing Args, comment unwrap/unreachable) is reachable and the renderer's fuel suffices (SafeBound.v: one totality lemma per converter, induction over the tree; Total.v). C05_no_panic_site: the same for every admissible request on any sub-bundle, with the counter bound. swfc (a MathDelimited starts and ends with an expression child, a Binary holds an operator token and none before its first operand, a FuncCall has an Args child whose left parenthesis comes first, a FieldAccess has a Dot) is the part of the parser's output schema the converters unwrap; C05_schema_survives_annotation shows the attribute passes keep it; the extracted swfc is evaluated on every tree the parser hands over. Also: refusal iff erroneous (C05_refuses_iff_erroneous), format_with_width returns the input on refusal (C05_convenience_returns_input), renderer termination for every document and width (C05_renderer_terminates, C05_never_out_of_fuel). Native stack depth and allocation are runtime behaviour the model cannot exhibit (nested families run to depth 16/64 as a test). Tie: accepted/refused/panicked class equality between model and implementation on every case incl. damaged sources and nested families; oracle: catch_unwind + refusal iff erroneous + format_with_width identity.",
         note="Trusted: Coq kernel (closed under the global context, no axioms); extraction (ExtrOcamlBasic only) and the OCaml driver; translators gen_kind/gen_tables/gen_cli; the Rust harness with its oracles. Modelled, not verified: typst-syntax (parser: its trees are the model's input), the `pretty` renderer and unicode-width (restated / harvested, compared on every case). K5 and the oracles are sampled (differential testing).",
         design='§4 C05'),
     'C06': dict(technique="Coq proofs (structural induction over documents / child lists; renderer refinement for every width) over a hand-written Gallina model of the whole converter pipeline (attr passes, ~60 converters, four stylists, pretty's renderer, post-processing) + generated tables (gen/Tables.v, gen/Kind.v) + differential correspondence of the extracted model with the implementation (document, bytes, counter) on every case + property oracle search",
